@@ -250,6 +250,7 @@ const (
 	planCorrupt
 	planZeroCRC
 	planDupLate // deliver normally and a second copy planDelayBy later
+	planZeroRef // reference of a zero-checksum twin: intact if the receiver must accept a zero checksum on this packet, lost otherwise
 )
 
 type simNet struct {
@@ -300,6 +301,12 @@ func (n *simNet) paramPlan(dir, rel int) planAction {
 				return planDelay
 			case 4:
 				return planSwap
+			case 5:
+				return planCorrupt
+			case 6:
+				return planZeroCRC
+			case 7:
+				return planZeroRef
 			}
 		}
 	}
@@ -357,7 +364,21 @@ func (n *simNet) send(dir int, to *simConn, pkt *wirePacket) {
 	} else if n.filter != nil {
 		act = n.filter(dir, pkt.idx, pkt)
 	}
-	if act != planNone {
+	if act == planZeroRef {
+		first := uint8(255)
+		if len(pkt.chunks) > 0 {
+			first = pkt.chunks[0].typ
+		}
+		// RFC 9653: accepted only if this endpoint declared acceptance, never for INIT / COOKIE-ECHO packets
+		if n.w.cfg.Side[1-dir].ZeroCRC && first != wtINIT && first != wtCOOKIEECHO {
+			act = planNone
+			n.w.probe("zero-crc-ref-intact")
+		} else {
+			act = planDrop
+			n.w.probe("zero-crc-ref-lost")
+		}
+		st.PlanFaults++
+	} else if act != planNone {
 		st.PlanFaults++
 	}
 	if n.partitioned[dir] {
@@ -426,11 +447,26 @@ func (n *simNet) send(dir int, to *simConn, pkt *wirePacket) {
 		d := make([]byte, len(data))
 		copy(d, data)
 		if len(d) > 0 {
-			nflips := 1 + tp.intn(4)
+			// (bit positions come from the adversary tape so that the network tapes of a twin run stay aligned)
+			at := n.w.atape
+			nflips := 1 + at.intn(4)
 			for i := 0; i < nflips; i++ {
-				bit := tp.intn(len(d) * 8)
+				bit := at.intn(len(d) * 8)
 				d[bit/8] ^= 1 << (bit % 8)
 			}
+			if len(d) >= 12 && d[8] == 0 && d[9] == 0 && d[10] == 0 && d[11] == 0 {
+				d[8] = 1 // keep the checksum field non-zero: a zero checksum is a different case
+			}
+			same := true
+			for i := range d {
+				if d[i] != data[i] {
+					same = false
+				}
+			}
+			if same {
+				d[len(d)-1] ^= 1 // two flips cancelled each other
+			}
+			n.w.logf("CORRUPT %d flips: %x -> %x", nflips, data, d)
 		}
 		pkt.mutated = d
 		n.push(now+delay, to, d, pkt)
